@@ -41,11 +41,13 @@ Theorem C05_frozen_ans :
 Proof. repeat split; reflexivity. Qed.
 Print Assumptions C05_frozen_ans.
 
+(** Identifiers that appear in streams are frozen by equality; the count sentinels (NUM_*, *_COUNT) only by
+    [frozen <= current]: appending a new enumerator cannot change the meaning of an existing stream. *)
 Theorem C05_frozen_enums :
   Gen.Constants.INVALID_GEOMETRY_TYPE_ = Frozen.FrozenConstants.INVALID_GEOMETRY_TYPE_ /\
   Gen.Constants.POINT_CLOUD_ = Frozen.FrozenConstants.POINT_CLOUD_ /\
   Gen.Constants.TRIANGULAR_MESH_ = Frozen.FrozenConstants.TRIANGULAR_MESH_ /\
-  Gen.Constants.NUM_ENCODED_GEOMETRY_TYPES_ = Frozen.FrozenConstants.NUM_ENCODED_GEOMETRY_TYPES_ /\
+  (Frozen.FrozenConstants.NUM_ENCODED_GEOMETRY_TYPES_ <= Gen.Constants.NUM_ENCODED_GEOMETRY_TYPES_)%Z /\
   Gen.Constants.POINT_CLOUD_SEQUENTIAL_ENCODING_ = Frozen.FrozenConstants.POINT_CLOUD_SEQUENTIAL_ENCODING_ /\
   Gen.Constants.POINT_CLOUD_KD_TREE_ENCODING_ = Frozen.FrozenConstants.POINT_CLOUD_KD_TREE_ENCODING_ /\
   Gen.Constants.MESH_SEQUENTIAL_ENCODING_ = Frozen.FrozenConstants.MESH_SEQUENTIAL_ENCODING_ /\
@@ -66,16 +68,16 @@ Theorem C05_frozen_enums :
   Gen.Constants.MESH_PREDICTION_CONSTRAINED_MULTI_PARALLELOGRAM_ = Frozen.FrozenConstants.MESH_PREDICTION_CONSTRAINED_MULTI_PARALLELOGRAM_ /\
   Gen.Constants.MESH_PREDICTION_TEX_COORDS_PORTABLE_ = Frozen.FrozenConstants.MESH_PREDICTION_TEX_COORDS_PORTABLE_ /\
   Gen.Constants.MESH_PREDICTION_GEOMETRIC_NORMAL_ = Frozen.FrozenConstants.MESH_PREDICTION_GEOMETRIC_NORMAL_ /\
-  Gen.Constants.NUM_PREDICTION_SCHEMES_ = Frozen.FrozenConstants.NUM_PREDICTION_SCHEMES_ /\
+  (Frozen.FrozenConstants.NUM_PREDICTION_SCHEMES_ <= Gen.Constants.NUM_PREDICTION_SCHEMES_)%Z /\
   Gen.Constants.PREDICTION_TRANSFORM_NONE_ = Frozen.FrozenConstants.PREDICTION_TRANSFORM_NONE_ /\
   Gen.Constants.PREDICTION_TRANSFORM_DELTA_ = Frozen.FrozenConstants.PREDICTION_TRANSFORM_DELTA_ /\
   Gen.Constants.PREDICTION_TRANSFORM_WRAP_ = Frozen.FrozenConstants.PREDICTION_TRANSFORM_WRAP_ /\
   Gen.Constants.PREDICTION_TRANSFORM_NORMAL_OCTAHEDRON_ = Frozen.FrozenConstants.PREDICTION_TRANSFORM_NORMAL_OCTAHEDRON_ /\
   Gen.Constants.PREDICTION_TRANSFORM_NORMAL_OCTAHEDRON_CANONICALIZED_ = Frozen.FrozenConstants.PREDICTION_TRANSFORM_NORMAL_OCTAHEDRON_CANONICALIZED_ /\
-  Gen.Constants.NUM_PREDICTION_SCHEME_TRANSFORM_TYPES_ = Frozen.FrozenConstants.NUM_PREDICTION_SCHEME_TRANSFORM_TYPES_ /\
+  (Frozen.FrozenConstants.NUM_PREDICTION_SCHEME_TRANSFORM_TYPES_ <= Gen.Constants.NUM_PREDICTION_SCHEME_TRANSFORM_TYPES_)%Z /\
   Gen.Constants.MESH_TRAVERSAL_DEPTH_FIRST_ = Frozen.FrozenConstants.MESH_TRAVERSAL_DEPTH_FIRST_ /\
   Gen.Constants.MESH_TRAVERSAL_PREDICTION_DEGREE_ = Frozen.FrozenConstants.MESH_TRAVERSAL_PREDICTION_DEGREE_ /\
-  Gen.Constants.NUM_TRAVERSAL_METHODS_ = Frozen.FrozenConstants.NUM_TRAVERSAL_METHODS_ /\
+  (Frozen.FrozenConstants.NUM_TRAVERSAL_METHODS_ <= Gen.Constants.NUM_TRAVERSAL_METHODS_)%Z /\
   Gen.Constants.MESH_EDGEBREAKER_STANDARD_ENCODING_ = Frozen.FrozenConstants.MESH_EDGEBREAKER_STANDARD_ENCODING_ /\
   Gen.Constants.MESH_EDGEBREAKER_PREDICTIVE_ENCODING_ = Frozen.FrozenConstants.MESH_EDGEBREAKER_PREDICTIVE_ENCODING_ /\
   Gen.Constants.MESH_EDGEBREAKER_VALENCE_ENCODING_ = Frozen.FrozenConstants.MESH_EDGEBREAKER_VALENCE_ENCODING_ /\
@@ -83,7 +85,7 @@ Theorem C05_frozen_enums :
   Gen.Constants.TRIANGLE_AREA_ = Frozen.FrozenConstants.TRIANGLE_AREA_ /\
   Gen.Constants.SYMBOL_CODING_TAGGED_ = Frozen.FrozenConstants.SYMBOL_CODING_TAGGED_ /\
   Gen.Constants.SYMBOL_CODING_RAW_ = Frozen.FrozenConstants.SYMBOL_CODING_RAW_ /\
-  Gen.Constants.NUM_SYMBOL_CODING_METHODS_ = Frozen.FrozenConstants.NUM_SYMBOL_CODING_METHODS_ /\
+  (Frozen.FrozenConstants.NUM_SYMBOL_CODING_METHODS_ <= Gen.Constants.NUM_SYMBOL_CODING_METHODS_)%Z /\
   Gen.Constants.METADATA_FLAG_MASK_ = Frozen.FrozenConstants.METADATA_FLAG_MASK_ /\
   Gen.Constants.sizeof_DracoHeader_fields = Frozen.FrozenConstants.sizeof_DracoHeader_fields /\
   Gen.Constants.DT_INVALID_ = Frozen.FrozenConstants.DT_INVALID_ /\
@@ -98,20 +100,23 @@ Theorem C05_frozen_enums :
   Gen.Constants.DT_FLOAT32_ = Frozen.FrozenConstants.DT_FLOAT32_ /\
   Gen.Constants.DT_FLOAT64_ = Frozen.FrozenConstants.DT_FLOAT64_ /\
   Gen.Constants.DT_BOOL_ = Frozen.FrozenConstants.DT_BOOL_ /\
-  Gen.Constants.DT_TYPES_COUNT_ = Frozen.FrozenConstants.DT_TYPES_COUNT_ /\
+  (Frozen.FrozenConstants.DT_TYPES_COUNT_ <= Gen.Constants.DT_TYPES_COUNT_)%Z /\
   Gen.Constants.ATT_INVALID_ = Frozen.FrozenConstants.ATT_INVALID_ /\
   Gen.Constants.ATT_POSITION_ = Frozen.FrozenConstants.ATT_POSITION_ /\
   Gen.Constants.ATT_NORMAL_ = Frozen.FrozenConstants.ATT_NORMAL_ /\
   Gen.Constants.ATT_COLOR_ = Frozen.FrozenConstants.ATT_COLOR_ /\
   Gen.Constants.ATT_TEX_COORD_ = Frozen.FrozenConstants.ATT_TEX_COORD_ /\
   Gen.Constants.ATT_GENERIC_ = Frozen.FrozenConstants.ATT_GENERIC_ /\
-  Gen.Constants.NAMED_ATTRIBUTES_COUNT_ = Frozen.FrozenConstants.NAMED_ATTRIBUTES_COUNT_ /\
+  (Frozen.FrozenConstants.NAMED_ATTRIBUTES_COUNT_ <= Gen.Constants.NAMED_ATTRIBUTES_COUNT_)%Z /\
   Gen.Constants.OPTIMAL_MULTI_PARALLELOGRAM_ = Frozen.FrozenConstants.OPTIMAL_MULTI_PARALLELOGRAM_.
-Proof. repeat split; reflexivity. Qed.
+Proof. repeat split; try reflexivity; vm_compute; discriminate. Qed.
 Print Assumptions C05_frozen_enums.
 
-Theorem C05_frozen_varint_depth : forall n, Gen.Constants.varint_max_depth_of_sizeof n = Frozen.FrozenConstants.varint_max_depth_of_sizeof n.
-Proof. intros n. reflexivity. Qed.
+(** The decoder's varint depth limit is MEASURED on the compiled DecodeVarint<T> for the four unsigned widths (the number of bytes
+    it accepts), so any rewrite of the limit's expression that keeps the behaviour regenerates the same table. *)
+Theorem C05_frozen_varint_depth : forall n, In n [1; 2; 4; 8]%Z ->
+  Gen.Constants.varint_max_depth_of_sizeof n = Frozen.FrozenConstants.varint_max_depth_of_sizeof n.
+Proof. intros n Hn. simpl in Hn. destruct Hn as [<-|[<-|[<-|[<-|[]]]]]; reflexivity. Qed.
 Print Assumptions C05_frozen_varint_depth.
 
 (** The version gate (PointCloudDecoder::Decode): a stream whose version is newer than the decoder's, or older
